@@ -306,6 +306,19 @@ theorem token_numeric_dispatch (b : UInt8) (r : Bytes) (inc : Bool) (hd : 48 ≤
 
 /-! ## Part 3 — floating literals -/
 
+/-- **float_parts_shape_as_modelled**: the shape of `calculate_float64_from_parts` the model relies on, re-extracted
+from the source on every run (`Gen.LexTables`): the body only builds the text `<left or 0>.<right or 0>e<exponent>`
+and its single exit is `text.parse::<f64>()` — no early `return`, no `*` or `/`, no float cast or float function —
+and `literal_float` calls it once with `(left, right, exp)`. This is what justifies
+`Model.Lexer.float64FromParts = nearest64 (left ++ right) (exp - |right|)` (given that `parse` is correctly rounded);
+any rewrite of the function (a fast path, digit accumulation, …) breaks this obligation before an input is found. -/
+theorem float_parts_shape_as_modelled :
+    floatPartsSignature = "left: DigitSequence, right: DigitSequence, exponent: i64 -> f64" ∧
+    floatPartsSteps = ["newText", "pushLeftDigits", "zeroIfLeftEmpty", "pushDot", "pushRightDigits",
+      "zeroIfRightEmpty", "pushE", "pushExponent", "returnParseF64"] ∧
+    floatPartsReturns = 0 ∧ floatPartsMulDiv = 0 ∧ floatPartsFloatOps = 0 ∧
+    floatPartsCallSites = 1 ∧ floatPartsCalledWithParts = true := by decide
+
 /-- **lex_float_nearest**: an accepted float literal is the text `<left>[.<right>][e<exp>][#INF][suffix]`, and its
 token carries `narrowOnce suffix (nearest64 (left ++ right) (exp - |right|))`: the double nearest (see
 `Spec/Dec2Bin.lean` and `nearest_*` below) to the decimal it spells, narrowed once to single precision for the
